@@ -136,6 +136,9 @@ CORPUS = [
     # D1 (known finding): regular definitions shared between use sites
     {"lex": [(2, "_r", [[('l', 97), ('l', 97)]]), (0, "t1", [[('f', "_r"), ('l', 120)]]), (0, "t2", [[('l', 97), ('f', "_r"), ('l', 121)]])],
      "syn": [], "mode": "multi", "inputs": [list(b"aay"), list(b"aaay"), list(b"aax")]},
+    # D24 (known finding): a regular definition that matches the empty string cannot be skipped
+    {"lex": [(2, "_r", [[('p', [[('l', 97)]])]]), (0, "t", [[('f', "_r"), ('l', 98)]]), (0, "u", [[('l', 99), ('f', "_r"), ('l', 98)]])],
+     "syn": [], "mode": "multi", "inputs": [list(b"b"), list(b"ab"), list(b"cb"), list(b"cab")]},
     # D13 (fixed): a string literal spelled like the printed form of a character literal
     {"lex": [(0, "t1", [[('l', 97), ('l', 98)]])], "syn": [("S0", [(1, "t1"), (2, "'a'")], 0, 0)], "mode": "none",
      "inputs": [list(b"'ab"), list(b"ab'a'"), list(b"'a'")]},
